@@ -166,10 +166,9 @@ VALID_KEY2 = base64.b64encode(bytes(range(200, 216))).decode()
 # several header lines
 UPGRADE = {
     "quick": [("websocket", "websocket"), ("WebSocket", "WebSocket"), ("absent", None),
-              ("h2c", "h2c")],
+              ("websocketx", "websocketx")],
     "thorough": [("websocket", "websocket"), ("WebSocket", "WebSocket"), ("absent", None),
-                 ("h2c", "h2c"), ("websocketx", "websocketx"),
-                 ("websocket,h2c", "websocket, h2c")],
+                 ("websocketx", "websocketx"), ("websocket,h2c", "websocket, h2c")],
 }
 CONNECTION = {
     "quick": [("Upgrade", "Upgrade"), ("ka,Upgrade", "keep-alive, Upgrade"), ("absent", None),
@@ -177,7 +176,7 @@ CONNECTION = {
     "thorough": [("Upgrade", "Upgrade"), ("upgrade", "upgrade"),
                  ("ka,Upgrade", "keep-alive, Upgrade"),
                  ("two-lines", ["keep-alive", "Upgrade"]), ("absent", None),
-                 ("close", "close"), ("ka,xupgrade", "keep-alive, xupgrade")],
+                 ("ka,xupgrade", "keep-alive, xupgrade")],
 }
 KEY = {
     "quick": [("valid", VALID_KEY), ("absent", None), ("short", "abc")],
@@ -186,15 +185,14 @@ KEY = {
 }
 VERSION = {
     "quick": [("13", "13"), ("8", "8"), ("12", "12"), ("absent", None)],
-    "thorough": [("13", "13"), ("8", "8"), ("7", "7"), ("12", "12"),
-                 ("absent", None), ("013", "013")],
+    "thorough": [("13", "13"), ("8", "8"), ("7", "7"), ("12", "12"), ("absent", None)],
 }
 ORIGIN_T = {
     "quick": ["none", "same", "same-upper", "other-host", "suffix-host", "other-port",
               "userinfo-trick", "null", "https-same"],
     "thorough": ["none", "same", "same-upper", "other-host", "suffix-host", "sub-host",
                  "prefix-host", "other-port", "userinfo-same", "userinfo-trick", "null",
-                 "https-same", "path", "noscheme", "empty", "legacy-same", "legacy-other"],
+                 "https-same", "path", "legacy-same", "legacy-other"],
 }
 SUBOFFER = {
     "quick": [("absent", None), ("chat,superchat", "chat, superchat")],
